@@ -81,7 +81,7 @@ type Step struct {
 	Steps    []*Step    `json:"steps"`
 	Kind     string     `json:"kind"`
 	Via      string     `json:"via"`
-	Fresh    bool       `json:"fresh"` // build a new Config from the named options for this call
+	Fresh    bool       `json:"fresh"`    // build a new Config from the named options for this call
 	Gs       []*ConcG   `json:"gs"`       // conc: goroutines
 	Schedule []string   `json:"schedule"` // conc: goroutine to release at each yield point
 }
@@ -128,7 +128,7 @@ type Event struct {
 	Out   string            `json:"out,omitempty"`  // base64 stdout of Clean
 	Env   map[string]string `json:"env,omitempty"`
 	Dirs  []*DirState       `json:"dirs,omitempty"`
-	Buf   string            `json:"buf,omitempty"`  // base64 caller buffer after the call
+	Buf   string            `json:"buf,omitempty"` // base64 caller buffer after the call
 	Note  string            `json:"note,omitempty"`
 	Panic string            `json:"panic,omitempty"`
 }
